@@ -100,3 +100,123 @@ def corpus_iter(tier, seed, derives=('EnumIter', 'EnumCount')):
         A(n, pos, kinds=rnd.choice(['unit', 'mixed', 'tuple', 'named']), generic=rnd.random() < 0.4,
           const_generic=rnd.random() < 0.2, k0=rnd.randint(0, 50))
     return out
+
+
+# ---------------------------------------------------------------------------------------
+# C06 FromRepr
+
+REPRS = [None, 'u8', 'i8', 'u16', 'i16', 'u32', 'i32', 'u64', 'i64', 'usize', 'isize']
+
+def disc_pattern(kind, n, signed, bits):
+    """Discriminant expressions for n variants (None = implicit)."""
+    if kind == 'implicit':
+        return [None] * n
+    if kind == 'explicit':
+        return [str(3 * i + 1) for i in range(n)]
+    if kind == 'negative':
+        if not signed:
+            return [None if i % 2 else str(10 * i + 2) for i in range(n)]
+        return [str(-5 + 2 * i) if i % 2 == 0 else None for i in range(n)]
+    if kind == 'expression':
+        return ['10 - 2', None, '(2 * 8) + 3', None, '7 * 7', None, '100 / 3', None][:n] if n <= 8 else None
+    if kind == 'gapped':
+        out = []
+        for i in range(n):
+            out.append(str(20 * i + 5) if i % 3 == 0 else None)
+        return out
+    if kind == 'descending':
+        top = 100
+        return [str(top - 10 * i) for i in range(n)]
+    if kind == 'extreme':
+        mx = (1 << (bits - 1)) - 1 if signed else (1 << bits) - 1
+        mn = -(1 << (bits - 1)) if signed else 0
+        out = [None] * n
+        out[0] = str(mn) if signed else None
+        out[-1] = str(mx)
+        if n > 2:
+            out[1] = str(mx - 7) if not signed else '-1'
+        return out
+    raise KeyError(kind)
+
+DISABLED_PLACEMENTS = ['none', 'first', 'middle', 'last', 'adjacent']
+
+def repr_program(namer, repr_, pattern, placement, n=4, payload=False, generic=False, k0=0):
+    signed = (repr_ or 'usize').startswith('i')
+    bits = {'8': 8, '16': 16, '32': 32, '64': 64}.get((repr_ or 'usize')[1:], 64)
+    if repr_ is None:
+        bits = 63      # the enum's own discriminant type is isize while from_repr takes usize
+    if placement == 'none':
+        dis = []
+    elif placement == 'first':
+        dis = [0]
+    elif placement == 'middle':
+        dis = [n // 2]
+    elif placement == 'last':
+        dis = [n - 1]
+    else:
+        dis = [1, 2] if n >= 4 else [0, 1]
+    discs = disc_pattern(pattern, n, signed, bits)
+    vs = []
+    ei = 0
+    di = 0
+    for i in range(n):
+        kind = 'unit'
+        if payload:
+            kind = ['unit', 'tuple', 'named'][(i + k0) % 3]
+        if i in dis:
+            v = mk_variant(GONE[di], kind, i + k0, 'T' if generic else None)
+            v.disabled = True
+            di += 1
+        else:
+            v = mk_variant(IDENTS[ei], kind, i + k0, 'T' if generic else None)
+            ei += 1
+        v.disc = discs[i]
+        vs.append(v)
+    p = Program(namer.next('Rp'), vs, derives=['FromRepr'])
+    p.repr = repr_
+    uses_t = any(f.ty == 'T' for v in vs for f in v.fields)
+    if uses_t:
+        p.generics_decl, p.generics_use, p.type_params = '<T: Default>', '<T>', ['T']
+    p.std_derives = ['Debug', 'PartialEq']
+    p.tags = ['repr=%s' % repr_, 'disc=' + pattern, 'disabled=' + placement] + (['payload'] if payload else []) + (['generic'] if uses_t else [])
+    return p
+
+def corpus_repr(tier, seed):
+    nm = Namer()
+    out = []
+    def A(repr_, pattern, placement, **kw):
+        payload = kw.get('payload', False)
+        if payload and repr_ is None and pattern != 'implicit':
+            return   # rustc: explicit discriminants on enums with fields need a primitive #[repr]
+        if repr_ is None and pattern == 'negative':
+            pattern_ok = True  # usize const from a negative literal does not compile: pattern falls back to unsigned form
+        out.append(repr_program(nm, repr_, pattern, placement, **kw))
+    # quick core: every disabled placement, every discriminant pattern at least once, narrow and wide reprs
+    A(None, 'implicit', 'none')
+    A(None, 'implicit', 'middle', payload=True, generic=True)
+    A('u8', 'explicit', 'first')
+    A('u8', 'gapped', 'middle')          # implicit discriminant right after a disabled variant
+    A('i8', 'negative', 'adjacent')
+    A('u16', 'expression', 'last', n=6)
+    A('i32', 'descending', 'middle', payload=True)
+    A('u64', 'extreme', 'first')
+    A('i64', 'extreme', 'adjacent', n=5)
+    A('usize', 'implicit', 'adjacent', n=6)
+    A('isize', 'negative', 'middle', payload=True, generic=True)
+    A('i16', 'gapped', 'first', n=7)
+    if tier == 'quick':
+        return out
+    pats = ['implicit', 'explicit', 'negative', 'expression', 'gapped', 'descending', 'extreme']
+    k = 0
+    for r in REPRS:
+        for pat in pats:
+            for pl in DISABLED_PLACEMENTS:
+                if (k % 5) != DISABLED_PLACEMENTS.index(pl) and (k + 2) % 5 != DISABLED_PLACEMENTS.index(pl):
+                    continue
+                A(r, pat, pl, n=4 + (k % 4), payload=(k % 3 == 0), generic=(k % 6 == 0), k0=k)
+            k += 1
+    rnd = random.Random(seed)
+    for _ in range(16):
+        A(rnd.choice(REPRS), rnd.choice(pats), rnd.choice(DISABLED_PLACEMENTS), n=rnd.randint(3, 8), payload=rnd.random() < 0.4,
+          generic=rnd.random() < 0.3, k0=rnd.randint(0, 40))
+    return out
